@@ -7,7 +7,7 @@
      fill_sectors_needs_ceqb  : ~ fill_sectors_stmt Gdegenerate ZRing
                                 (the statement as written, WITHOUT any law on ceqb, is false)
      init_infers_charge       : init_infers_charge_stmt G R
-     init_unsigned_inference_dual : closed U1 example, the inferred charge is wrong with a dual index
+     init_ex_dual             : closed U1 example with a dual index (signed inference, fix 28a1fb2)
      from_blocks_eq           : from_blocks_eq_stmt G R
    Stdlib only. *)
 From SV Require Import Base.Prelude Base.Sym Base.Tensor Model.Sectors Model.Array Model.Arith
@@ -174,20 +174,6 @@ Proof. vm_compute. reflexivity. Qed.
 (* ------------------------------------------------------------------ *)
 (* 0. __init__                                                         *)
 
-Lemma signed_sector_nodual (G : Symmetry) (HG : GroupLaws G) (ixs : list (index G)) :
-  forall s : list (C G), length s = length ixs ->
-    forallb (fun ix => negb (idual G ix)) ixs = true ->
-    signed_sector G false s (map (idual G) ixs) = s.
-Proof.
-  induction ixs as [|ix ixs IH]; intros [|c s] Hl Hd; cbn [length] in Hl; try discriminate Hl.
-  - reflexivity.
-  - cbn [forallb] in Hd. apply andb_true_iff in Hd. destruct Hd as [Hd0 Hd].
-    unfold signed_sector. cbn [map List.combine fst snd].
-    destruct (idual G ix); [discriminate Hd0|]. cbn [xorb].
-    rewrite (sign_false G HG). f_equal.
-    apply (IH s); [lia | exact Hd].
-Qed.
-
 Theorem init_infers_charge (G : Symmetry) (R : Ring) : init_infers_charge_stmt G R.
 Proof.
   intros ixs blks.
@@ -195,31 +181,26 @@ Proof.
   split; [reflexivity|].
   split; [intros ->; reflexivity|].
   split; [|intros c; reflexivity].
-  intros s b rest ->. split; [reflexivity|].
-  intros HG Hlen Hnd. unfold init_array, init_charge. cbn [charge fst].
-  unfold is_valid_sector. rewrite (signed_sector_nodual G HG ixs s Hlen Hnd).
-  apply (ceqb_refl G HG).
+  intros s b rest ->. split; [reflexivity|]. split.
+  - intros HG. unfold init_array, init_charge. cbn [charge fst].
+    unfold is_valid_sector. apply (ceqb_refl G HG).
+  - intros HG q Hall.
+    assert (Hq : charge G R (init_array G R ixs None ((s, b) :: rest)) = q).
+    { unfold init_array, init_charge. cbn [charge fst].
+      pose proof (Forall_inv Hall) as H0. cbn [fst] in H0. unfold is_valid_sector in H0.
+      apply (ceqb_eq G HG) in H0. exact H0. }
+    split; [exact Hq|]. rewrite Hq. exact Hall.
 Qed.
 
-(* the non-dual hypothesis is satisfiable and the conclusion non-trivial *)
-Example init_ex_nondual :
-  let ixs := [Index U1 [(1%Z, 1)] false None; Index U1 [(1%Z, 1); (2%Z, 1)] false None] in
-  let blks := [([1; 2]%Z, @mkT ZRing [1; 1] [7%Z])] in
-  forallb (fun ix => negb (idual U1 ix)) ixs = true
-  /\ charge U1 ZRing (init_array U1 ZRing ixs None blks) = 3%Z
+(* the hypotheses are satisfiable and the conclusion non-trivial: a dual index, U1, two stored
+   sectors of total charge 0 whose plain (unsigned) sums are 2 and 4 *)
+Example init_ex_dual :
+  let ixs := [Index U1 [(1%Z, 1); (2%Z, 1)] false None; Index U1 [(1%Z, 1); (2%Z, 1)] true None] in
+  let blks := [([1; 1]%Z, @mkT ZRing [1; 1] [7%Z]); ([2; 2]%Z, @mkT ZRing [1; 1] [5%Z])] in
+  Forall (fun sb => is_valid_sector U1 (map (idual U1) ixs) 0%Z (fst sb) = true) blks
+  /\ charge U1 ZRing (init_array U1 ZRing ixs None blks) = 0%Z
   /\ wf_array U1 ZRing (init_array U1 ZRing ixs None blks) = true.
-Proof. repeat split; vm_compute; reflexivity. Qed.
-
-(* with a dual index the unsigned inference is wrong: the stored sector is not charge
-   conserving for the inferred charge (inferred 2, signed sum 0) *)
-Example init_unsigned_inference_dual :
-  let ixs := [Index U1 [(1%Z, 1)] false None; Index U1 [(1%Z, 1)] true None] in
-  let blks := [([1; 1]%Z, @mkT ZRing [1; 1] [7%Z])] in
-  charge U1 ZRing (init_array U1 ZRing ixs None blks) = 2%Z
-  /\ is_valid_sector U1 (map (idual U1) ixs) (charge U1 ZRing (init_array U1 ZRing ixs None blks)) [1; 1]%Z
-     = false
-  /\ is_valid_sector U1 (map (idual U1) ixs) 0%Z [1; 1]%Z = true.
-Proof. repeat split; vm_compute; reflexivity. Qed.
+Proof. split; [repeat constructor | split; vm_compute; reflexivity]. Qed.
 
 (* ------------------------------------------------------------------ *)
 (* 2. from_blocks                                                      *)
@@ -588,3 +569,62 @@ Example fb_ex_y_value :
   from_blocks U1 ZRing (blocks U1 ZRing fb_ex_y) (duals U1 ZRing fb_ex_y) (Some 0%Z)
   = Some fb_ex_y.
 Proof. vm_compute. reflexivity. Qed.
+
+(* ------------------------------------------------------------------ *)
+(* 3. direct construction with the charge omitted vs from_blocks       *)
+
+Lemma wf_sector_valid (G : Symmetry) (R : Ring) (x : aarray G R) :
+  wf_array G R x = true ->
+  forall sb, In sb (blocks G R x) ->
+    is_valid_sector G (duals G R x) (charge G R x) (fst sb) = true.
+Proof.
+  intros Hwf sb Hin. unfold wf_array in Hwf.
+  apply andb_true_iff in Hwf. destruct Hwf as [_ Hblk].
+  rewrite forallb_forall in Hblk. specialize (Hblk sb Hin).
+  apply andb_true_iff in Hblk. destruct Hblk as [Hblk _].
+  apply andb_true_iff in Hblk. destruct Hblk as [Hso _].
+  unfold sector_ok in Hso. apply andb_true_iff in Hso. destruct Hso as [_ Hv]. exact Hv.
+Qed.
+
+Theorem direct_vs_from_blocks (G : Symmetry) (R : Ring) : direct_vs_from_blocks_stmt G R.
+Proof.
+  intros HG HO x Hwf Hne.
+  assert (Hdirect : init_array G R (indices G R x) None (blocks G R x) = x).
+  { pose proof (wf_sector_valid G R x Hwf) as Hv.
+    destruct x as [ixs q blks]. cbn [indices blocks charge duals] in *.
+    destruct blks as [|sb rest]; [contradiction Hne; reflexivity|].
+    unfold init_array, init_charge. f_equal.
+    specialize (Hv sb (or_introl eq_refl)). unfold is_valid_sector in Hv.
+    apply (ceqb_eq G HG) in Hv. exact Hv. }
+  split; [exact Hdirect|]. split.
+  - rewrite Hdirect.
+    destruct (from_blocks_eq G R HG HO x (Some (charge G R x)) Hwf Hne)
+      as [y [Hy [Hc [Hb [_ [Hd _]]]]]].
+    exists y. split; [exact Hy|]. split; [exact Hc|]. split; [exact Hb | exact Hd].
+  - destruct (from_blocks_eq G R HG HO x None Hwf Hne) as [y [Hy [Hc [Hb [_ [Hd _]]]]]].
+    cbn [charge_or_ident] in Hc.
+    exists y. split; [exact Hy|]. split; [exact Hc|]. split; [exact Hb|]. split.
+    + rewrite Hc. split; intros H; symmetry; exact H.
+    + intros Hnz s Hs. rewrite Hd, Hc.
+      unfold sectors in Hs. rewrite Hb in Hs. apply in_map_iff in Hs.
+      destruct Hs as [sb [<- Hin]].
+      pose proof (wf_sector_valid G R x Hwf sb Hin) as Hv.
+      destruct (is_valid_sector G (duals G R x) (ident G) (fst sb)) eqn:E; [|reflexivity].
+      exfalso. apply Hnz. unfold is_valid_sector in Hv, E.
+      apply (ceqb_eq G HG) in Hv. apply (ceqb_eq G HG) in E. rewrite <- Hv. exact E.
+Qed.
+
+(* a non-trivial instance: U1, a dual index, total charge 1 (not the identity): direct
+   construction without a charge gives it back; from_blocks without a charge has charge 0 and
+   its only sector does not conserve it *)
+Definition dv_ex_x : aarray U1 ZRing :=
+  mkA U1 ZRing [Index U1 [(1%Z, 1); (2%Z, 2)] false None; Index U1 [(0%Z, 1); (1%Z, 1)] true None] 1%Z
+      [([2; 1]%Z, @mkT ZRing [2; 1] [3; 4]%Z); ([1; 0]%Z, @mkT ZRing [1; 1] [9%Z])].
+Example dv_ex :
+  wf_array U1 ZRing dv_ex_x = true
+  /\ init_array U1 ZRing (indices U1 ZRing dv_ex_x) None (blocks U1 ZRing dv_ex_x) = dv_ex_x
+  /\ match from_blocks U1 ZRing (blocks U1 ZRing dv_ex_x) (duals U1 ZRing dv_ex_x) None with
+     | Some y0 => charge U1 ZRing y0 = 0%Z /\ wf_array U1 ZRing y0 = false
+     | None => False
+     end.
+Proof. split; [vm_compute; reflexivity | split; [vm_compute; reflexivity | vm_compute; split; reflexivity]]. Qed.
